@@ -29,11 +29,22 @@ META = {
 class Recorder:
     def __init__(self):
         self.writes = []      # (offset, bytes)
+        self.seen = set()     # paths already opened for writing in this recording (their content is what was recorded)
         self.real_open = builtins.open
 
     def open(self, path, mode="r", *a, **k):
+        base = None
+        first = path not in self.seen
+        if "w" in mode or "+" in mode or "a" in mode:
+            self.seen.add(path)
+        if first and "w" not in mode and ("+" in mode or "a" in mode) and os.path.exists(path):
+            # opened for update: what the path holds at that moment stays until it is overwritten or cut
+            with self.real_open(path, "rb") as g:
+                base = g.read()
         f = self.real_open(path, mode, *a, **k)
-        if "w" in mode or "+" in mode:
+        if "w" in mode or "+" in mode or "a" in mode:
+            if base is not None:
+                self.writes.append((("base", len(base)), base))
             return RecFile(f, self)
         return f
 
@@ -83,6 +94,9 @@ def image(writes, n_full, partial=None):
     buf = bytearray()
 
     def put(off, data):
+        if isinstance(off, tuple) and off[0] == "base":      # content found at the path by an open for update
+            buf[:] = data
+            return
         if isinstance(off, tuple):      # ("truncate", size)
             if off[1] > len(buf):
                 buf.extend(bytes(off[1] - len(buf)))
@@ -256,7 +270,24 @@ def check_images(case, ctx, writes, final_path, d):
     only = case.get("only_point")
     fspec = spec.SgzSpec(final)
     structured = (not fspec.is_2d) and fspec.tracecount == fspec.n_il * fspec.n_xl
-    p = os.path.join(d, "partial.sgz")
+    # every partial image of this process is stored under the same name (a path that has held other files before)
+    p = os.path.join(ctx.work, "partial.sgz")
+    if fspec.footer_start < len(final):
+        # ... among them, just before, a complete file of the same geometry whose header arrays hold other values, which
+        # a reader of this process has loaded in full: nothing of it may be served for the files that follow
+        decoy = bytearray(final)
+        for k in range(fspec.footer_start, len(final)):
+            decoy[k] ^= 0x15
+        with open(p, "wb") as f:
+            f.write(decoy)
+        try:
+            from seismic_zfp.read import SgzReader
+            with SgzReader(p) as r0:
+                for key in list(r0.stored_header_keys):
+                    r0.get_tracefield_values(key)
+                r0.read_variant_headers()
+        except Exception:
+            pass     # (whether the decoy itself is readable is of no concern here)
     n_eval = 0
     for pi, pt in enumerate(points):
         if only is not None and list(pt) != list(only):
@@ -344,6 +375,9 @@ def run_case(case, ctx):
     rate, bs = case["setting"][0], tuple(case["setting"][1])
     out = os.path.join(d, "full.sgz")
     route = case["route"]
+    # (for one run in three an earlier run has left a file of another kind at the output path: a writer that opened it
+    # for update instead of replacing it would keep its content behind every crash point)
+    conv.leave_stale(out, repr(case.get("values")) + route + repr(case.get("setting")))
     if route in ("numpy", "crop", "reblock"):
         data = gen.make_values(tuple(case["shape"]), case["values"]["kind"], case["values"]["vseed"])
         n_il, n_xl, ns = case["shape"]
